@@ -7,6 +7,7 @@
                                    nodes and root kind in roots), vals
                  mode = "trees": trees (given explicitly: seeded random larger trees, replay), names, vals
                  mode = "gens":  alpha, n, part, parts, vals  (generator shells)
+                 mode = "eltgens": alpha, n, part, parts, vals  ((<elt> for x in T) for every elt of ExprSeq(alpha, n))
                  mode = "derivs" / "genderivs": derivations over the alphabet (seeded random larger trees)
                  mode = "gentrees": generator trees given explicitly (replay);  mode = "count": sizes and alphabet *)
 EXTENDS PyExpr, Json, IOUtils
@@ -88,6 +89,10 @@ GenShellSeq(A, n) ==
                   IN [i \in 1 .. Len(ss) |-> Gen2(ss[i], n1, n2, it)]
     IN CatRange(One, 0, 2) \o CatRange(Two, 0, 17)
 
+(* one for-clause without filter around every expression with at most n operator nodes: the yielded element is where
+   conditional expressions, and/or and their nestings are reconstructed from jumps that end at YIELD_VALUE *)
+ElementShellSeq(A, n) == LET es == ExprSeq(A, n) IN [i \in 1 .. Len(es) |-> Gen1(<<es[i]>>, 0)]
+
 (* a generator from a derivation [elt |-> d, c1 |-> <<d, ...>>, two |-> "y" or "n", it |-> 1 or 2, c2 |-> <<d, ...>>] *)
 BuildGen(A, gd) ==
     LET Bd(d) == Build(A, d, 1)[1]
@@ -130,6 +135,11 @@ Result ==
             LET A == Alphabets[In.alpha]
                 ET == EnvTable(A.names, ValueSets[In.vals])
                 gs == Slice(GenShellSeq(A, In.n))
+            IN [i \in 1 .. Len(gs) |-> GenRow(gs[i], A.names, ET)]
+      [] In.mode = "eltgens" ->     \* deeper elements: (<elt> for x in T) for every elt of ExprSeq(alpha, n)
+            LET A == Alphabets[In.alpha]
+                ET == EnvTable(A.names, ValueSets[In.vals])
+                gs == Slice(ElementShellSeq(A, In.n))
             IN [i \in 1 .. Len(gs) |-> GenRow(gs[i], A.names, ET)]
       [] In.mode = "derivs" ->      \* trees given as derivations over the alphabet (seeded random larger trees)
             LET A == Alphabets[In.alpha]
